@@ -3,6 +3,7 @@ package c16
 import (
 	"encoding/json"
 	"fmt"
+	"github.com/nspcc-dev/neo-go/pkg/core/native/nativehashes"
 	"slices"
 	"strings"
 	"sync"
@@ -202,7 +203,13 @@ func buildCaller() (*asm.B, []asm.MethodSpec) {
 	b := asm.New()
 	b.Label("call")
 	b.InitSlot(0, 4).Op(opcode.LDARG3, opcode.LDARG2, opcode.LDARG1, opcode.LDARG0).Syscall("System.Contract.Call").Op(opcode.RET)
-	return b, []asm.MethodSpec{{Name: "call", Label: "call", Params: 4}}
+	// dcall: the same call made after the contract has destroyed itself in this very execution (its manifest lets it
+	// call ContractManagement.destroy): the rest of its code still runs under the permissions it was deployed with.
+	b.Label("dcall")
+	b.InitSlot(0, 4)
+	b.Op(opcode.NEWARRAY0).Int(15).Str("destroy").Bytes(nativehashes.ContractManagement.BytesBE()).Syscall("System.Contract.Call").Op(opcode.DROP)
+	b.Op(opcode.LDARG3, opcode.LDARG2, opcode.LDARG1, opcode.LDARG0).Syscall("System.Contract.Call").Op(opcode.RET)
+	return b, []asm.MethodSpec{{Name: "call", Label: "call", Params: 4}, {Name: "dcall", Label: "dcall", Params: 4}}
 }
 
 func (w *world) deployPermissionFamily() error {
@@ -238,6 +245,10 @@ func (w *world) deployPermissionFamily() error {
 			for _, p := range cs.Perms {
 				m.Permissions = append(m.Permissions, w.realPerm(p))
 			}
+			// harness constant, never matches a callee of the family: the right to destroy itself (dcall)
+			mp := manifest.NewPermission(manifest.PermissionHash, nativehashes.ContractManagement)
+			mp.Methods.Value = []string{"destroy"}
+			m.Permissions = append(m.Permissions, *mp)
 		})
 		if err != nil {
 			return err
@@ -249,7 +260,7 @@ func (w *world) deployPermissionFamily() error {
 	}
 	// The deployed manifests must say what the family says (guards the harness itself).
 	for i, d := range w.cs {
-		if len(d.CS.Manifest.Permissions) != len(w.csDef[i].Perms) {
+		if len(d.CS.Manifest.Permissions) != len(w.csDef[i].Perms)+1 {
 			return fmt.Errorf("caller %s deployed with %d permissions, wanted %d", d.Name, len(d.CS.Manifest.Permissions), len(w.csDef[i].Perms))
 		}
 	}
@@ -384,9 +395,10 @@ func checkPermCase(c PermCase, o *vt.Obs) error {
 // PermCallCase picks a deployed caller, a deployed callee and a method; flags requested for the inner call are drawn too.
 type PermCallCase struct {
 	Caller int    `json:"caller"`
-	Callee int    `json:"callee"` // 0..3
-	Method string `json:"method"` // m | n | s
-	Flags  int    `json:"flags"`  // flags the caller requests for the callee
+	Callee int    `json:"callee"`          // 0..3
+	Method string `json:"method"`          // m | n | s
+	Flags  int    `json:"flags"`           // flags the caller requests for the callee
+	After  string `json:"after,omitempty"` // "destroy": the caller destroys itself before making the call
 }
 
 func genPermCallCase(t *rapid.T) PermCallCase {
@@ -395,6 +407,7 @@ func genPermCallCase(t *rapid.T) PermCallCase {
 		Callee: uniform(t, 4, "callee"),
 		Method: pick(t, []string{"m", "m", "n", "n", "s"}, "method"),
 		Flags:  pick(t, []int{15, 15, 15, 5, 1, 0}, "flags"),
+		After:  pick(t, []string{"", "", "destroy"}, "after"),
 	}
 }
 
@@ -418,7 +431,13 @@ func checkPermCallCase(c PermCallCase, o *vt.Obs) error {
 		o.Label("excluded/known-group-finding")
 		return nil
 	}
-	script := appCall(caller.Hash, "call", callflag.All, callee.Hash.BytesBE(), c.Method, int64(c.Flags), []any{})
+	entry := "call"
+	if c.After == "destroy" {
+		entry = "dcall"
+	} else if c.After != "" {
+		return nil
+	}
+	script := appCall(caller.Hash, entry, callflag.All, callee.Hash.BytesBE(), c.Method, int64(c.Flags), []any{})
 	ic, err := w.newIC(trigger.Application, w.plainTx(nil, 0))
 	if err != nil {
 		return err
@@ -431,7 +450,22 @@ func checkPermCallCase(c PermCallCase, o *vt.Obs) error {
 	if executed != (out.Halt && out.Stack == fmt.Sprint(11+mi)) {
 		return fmt.Errorf("%s: inconsistent observation (harness): executed=%v outcome %s", where, executed, out)
 	}
-	if len(out.Changed) != 0 || len(out.Notifs) != 0 {
+	if c.After == "destroy" {
+		where += " after destroying itself"
+		o.Label("after-self-destroy")
+		// the destruction itself removes the contract record and emits Destroy; nothing else may appear
+		for _, n := range out.Notifs {
+			if n != "ContractManagement:Destroy" {
+				return fmt.Errorf("%s: unexpected notification %s", where, out)
+			}
+		}
+		for _, ch := range out.Changed {
+			// (a destroyed contract's hash is blocked in Policy so that it cannot be deployed again)
+			if !strings.Contains(ch, "ContractManagement(") && !strings.HasPrefix(ch, "+PolicyContract(") {
+				return fmt.Errorf("%s: unexpected storage change %s", where, out)
+			}
+		}
+	} else if len(out.Changed) != 0 || len(out.Notifs) != 0 {
 		return fmt.Errorf("%s: unexpected effects %s", where, out)
 	}
 	if c.Method == "s" {
